@@ -54,7 +54,11 @@ func isDocumentType(t types.Type) bool {
 
 // splitDerived: v is the result of strings.Split(...) or a slice of it.
 func splitDerived(v ssa.Value) bool {
-	for d := 0; d < 6; d++ {
+	return splitDerivedDepth(v, 0)
+}
+
+func splitDerivedDepth(v ssa.Value, d int) bool {
+	for ; d < 8; d++ {
 		switch x := v.(type) {
 		case *ssa.Call:
 			return stdName(x.Call.StaticCallee()) == "strings.Split"
@@ -62,7 +66,7 @@ func splitDerived(v ssa.Value) bool {
 			v = x.X
 		case *ssa.Phi:
 			for _, e := range x.Edges {
-				if splitDerived(e) {
+				if splitDerivedDepth(e, d+1) {
 					return true
 				}
 			}
